@@ -74,7 +74,7 @@ LEVEL_NOTE = ("Trusted: Coq kernel, extraction, the two translators (harness/tra
               "reported as a broken tie, not with a failing input. History effects: a failure is only reported after it reproduced in a fresh "
               "interpreter, alone or after a minimised list of earlier modules.")
 MODEL = ("Model.C01_run", "run_C01_all")
-COQ_TARGETS = ["Proofs/C01_visitor.vo", "Proofs/C01_vis.vo", "Proofs/C01_content.vo", "Proofs/C01_raw.vo", "Proofs/C01_layout.vo", "Model/C01_run.vo"]
+COQ_TARGETS = ["Proofs/C01_visitor.vo", "Proofs/C01_vis.vo", "Proofs/C01_content.vo", "Proofs/C01_raw.vo", "Proofs/C01_layout.vo", "Proofs/C01_resolve.vo", "Proofs/C01_ext.vo", "Model/C01_run.vo"]
 RULE = ("seeded random structural modules (nesting <=4; name pool of 11 (incl. _t__, z__) with forced duplicates; decorators from the label tables, overload, "
         "accessor, unknown, over one or several lines; docstrings in every legal position incl. attribute docstrings, after if/for/try bodies, also "
         "parenthesised over several lines, concatenated across lines or followed by a comment line; layout noise: blank / comment lines at any "
@@ -99,6 +99,13 @@ ASSUMPTIONS = ["decorator heads and ClassVar are resolved through module-level i
 TRANSLATOR_NAME = "harness/translate/c01_tables.py + c01_dispatch.py"
 
 TC_TESTS = {"TYPE_CHECKING", "typing.TYPE_CHECKING"}
+NEG_TC_TESTS = {"not TYPE_CHECKING", "not typing.TYPE_CHECKING"}
+
+
+def tc_code(test):
+    """0 nothing, 1 `TYPE_CHECKING` (the body is type-checking-only), 2 `not TYPE_CHECKING` (the else branch is)"""
+    t = ast.unparse(test)
+    return 1 if t in TC_TESTS else 2 if t in NEG_TC_TESTS else 0
 
 
 def translate(ctx):
@@ -139,7 +146,8 @@ class Abstraction:
             return ["path", "?"]
         if len(parts) == 2 and parts[1] in ("setter", "deleter"):
             return ["acc", parts[0], parts[1]]
-        return ["path", self.resolve(parts)]
+        # the spelling only: which callable it denotes at that place is resolved in Coq (Model/C01_resolve.v)
+        return ["ref", parts[0], "".join("." + p for p in parts[1:])]
 
     def target(self, node):
         if isinstance(node, ast.Name):
@@ -238,7 +246,7 @@ class Abstraction:
                         self.import_map[a.asname or a.name] = path
             return ["importfrom", s.lineno, s.end_lineno, names]
         if isinstance(s, ast.If):
-            return ["if", ast.unparse(s.test) in TC_TESTS, self.stmts(s.body), self.stmts(s.orelse)]
+            return ["if", tc_code(s.test), self.stmts(s.body), self.stmts(s.orelse)]
         if isinstance(s, (ast.For, ast.AsyncFor, ast.While)):
             return ["block", [["sub", False, self.stmts(s.body)], ["sub", False, self.stmts(s.orelse)]]]
         if isinstance(s, (ast.With, ast.AsyncWith)):
@@ -380,6 +388,8 @@ class Recorder:
                                 parent.path if parent is not None else "", bool(parent is not None and parent.kind.value == "function"),
                                 id(parent) if parent is not None else None, obj.path)
                     self.calls.append((hook, type(node).__name__ if node is not None else None, ln, info))
+                    if getattr(self, "shared", None) is not None:
+                        self.shared.append((self.ext_id, hook))
 
                 def on_node(self, *, node, agent, **kw): self._rec("on_node", node)
                 def on_instance(self, *, node, obj, agent, **kw): self._rec("on_instance", node, obj)
@@ -715,6 +725,8 @@ class Gen:
                 return self.classdef(kind, depth, ind)
             return self.emit(ind, "import os")
         # module / class
+        if self.rng.random() < (0.12 if self.profile == "history" else 0.05):
+            return self.shadow(kind, ind)
         if r < 0.04:
             return self.property_idiom(ind)
         if r < 0.22:
@@ -834,11 +846,12 @@ class Gen:
         self.features.add("import")
         n = self.name()
         forms = ["import os.path", f"import os as {n}", f"from os import path as {n}", "import os, sys", f"from os import sep as {n}, path",
-                 f"import os.path as {n}", "from os import sep"]
+                 f"import os.path as {n}", "from os import sep", "from os import __all__"]
         if kind == "module" and ind == 0:
             forms.append("from os.path import *")
         if not self.exe:
-            forms += [f"import pkg.sub.{n}", f"from pkg import {n}", f"from . import {n}", f"from .rel import {n}", f"from .. import {n} as {self.name()}",
+            forms += ["from pkg import __all__", "from .rel import __all__ as __all__", f"from pkg import __all__ as {n}", f"from pkg import {n} as __all__",
+                      f"import pkg.sub.{n}", f"from pkg import {n}", f"from . import {n}", f"from .rel import {n}", f"from .. import {n} as {self.name()}",
                       f"from m import {n}", f"from m import {n} as {self.name()}", f"from m.C import {n}", f"from pkg import {n} as {n}",
                       f"from . import {n} as {n}", "from pkg import (\n" + "    " * ind + f"    {n},\n" + "    " * ind + f"    {self.name()},\n" + "    " * ind + ")"]
         self.emit(ind, self.rng.choice(forms))
@@ -888,6 +901,30 @@ class Gen:
             else:
                 self.emit(ind + 1, self.rng.choice(["pass", "return 1", "..."]))
 
+    def shadow(self, kind, ind):
+        """(Re)bind a decorator spelling in this scope: from here on (and, in a class body, only inside this body) the same
+        text denotes another callable than before."""
+        s_ = self.rng.choice(["property", "cached_property", "staticmethod", "classmethod", "overload", "deco", "cached_property", "property"])
+        r = self.rng.random()
+        self.features.add("decorator-shadowed")
+        if r < 0.45:
+            self.emit(ind, f"def {s_}(fn):")
+            self.emit(ind + 1, "return fn")
+        elif r < 0.65:
+            self.emit(ind, f"{s_} = (lambda fn: fn)")
+        elif r < 0.85:
+            self.emit(ind, f"from functools import cached_property as {s_}")
+        elif r < 0.93:
+            self.emit(ind, f"from functools import cache as {s_}")
+        else:
+            self.emit(ind, f"class {s_}:")
+            self.emit(ind + 1, "pass")
+        # ... and use it right away, and once more later through the ordinary statements
+        if self.rng.random() < 0.7:
+            self.emit(ind, "@" + s_)
+            self.emit(ind, f"def {self.name()}(self=None, *args):")
+            self.emit(ind + 1, "return 1")
+
     def property_idiom(self, ind):
         n = self.name()
         self.features.add("property-idiom")
@@ -912,8 +949,9 @@ class Gen:
         r = self.rng.random()
         d = depth + 1
         if r < 0.4:
-            test = self.rng.choice(["TYPE_CHECKING", "TYPE_CHECKING", "typing.TYPE_CHECKING", "1", "0", "not TYPE_CHECKING", "TYPE_CHECKING and 1", 'len("ab")'])
-            self.features.add("if-tc" if test in TC_TESTS else "if")
+            test = self.rng.choice(["TYPE_CHECKING", "TYPE_CHECKING", "typing.TYPE_CHECKING", "1", "0", "not TYPE_CHECKING", "not typing.TYPE_CHECKING",
+                                    "not TYPE_CHECKING", "TYPE_CHECKING and 1", 'len("ab")', "not (TYPE_CHECKING)", "not not TYPE_CHECKING"])
+            self.features.add("if-tc" if test in TC_TESTS else "if-not-tc" if test in NEG_TC_TESTS else "if")
             self.emit(ind, f"if {test}:")
             self.block_body(kind, d, ind + 1)
             rr = self.rng.random()
@@ -1050,6 +1088,72 @@ def deco_text(d):
         return "?"
 
 
+BUILTIN_SPELLINGS = {"property", "staticmethod", "classmethod"}
+
+
+def ambiguous_heads(tree):
+    """Decorator spellings whose meaning depends on the place in the module: a builtin spelling that is bound anywhere, or
+    any other name bound more than once (the static direct checks, which read decorators textually, leave definitions
+    decorated with them to the model tie and to the checks against the executed module)."""
+    from collections import Counter
+    cnt = Counter()
+    for n in ast.walk(tree):
+        if isinstance(n, (ast.FunctionDef, ast.AsyncFunctionDef, ast.ClassDef)):
+            cnt[n.name] += 1
+        elif isinstance(n, ast.Name) and isinstance(n.ctx, (ast.Store, ast.Del)):
+            cnt[n.id] += 1
+        elif isinstance(n, ast.alias):
+            cnt[n.asname or n.name.split(".", 1)[0]] += 1
+        elif isinstance(n, ast.arg):
+            cnt[n.arg] += 0
+    return {h for h, k in cnt.items() if k >= 2 or (k == 1 and h in BUILTIN_SPELLINGS)}
+
+
+def rebindings_straight(tree, heads):
+    """Every statement binding one of the heads is a plain statement of the module body or of the body of a class that
+    is itself such a statement: then what Griffe sees in source order is what CPython executes."""
+    ok = True
+
+    def binds(s):
+        if isinstance(s, (ast.FunctionDef, ast.AsyncFunctionDef, ast.ClassDef)):
+            return {s.name}
+        if isinstance(s, (ast.Import, ast.ImportFrom)):
+            return {a.asname or a.name.split(".", 1)[0] for a in s.names}
+        return {n.id for n in ast.walk(s) if isinstance(n, ast.Name) and isinstance(n.ctx, (ast.Store, ast.Del))} if isinstance(s, (ast.Assign, ast.AnnAssign, ast.AugAssign, ast.Delete)) else set()
+
+    straight_stmts = set()
+
+    def rec(body):
+        for s in body:
+            straight_stmts.add(id(s))
+            if isinstance(s, ast.ClassDef):
+                rec(s.body)
+    rec(tree.body)
+    for n in ast.walk(tree):
+        if isinstance(n, ast.stmt) and id(n) not in straight_stmts and not isinstance(n, (ast.If, ast.For, ast.While, ast.Try, ast.With, ast.Match)):
+            if binds(n) & heads:
+                ok = False
+        elif isinstance(n, ast.stmt) and id(n) not in straight_stmts:
+            # names bound by the compound statement itself (loop targets, with-as): not decorator spellings in generated code
+            pass
+    return ok
+
+
+def deco_head(d):
+    if isinstance(d, ast.Call):
+        d = d.func
+    while isinstance(d, ast.Attribute):
+        d = d.value
+    return d.id if isinstance(d, ast.Name) else None
+
+
+_AMB: set = set()          # ambiguous decorator spellings of the module under check (set by direct_checks / runtime_checks)
+
+
+def amb_def(s):
+    return any(deco_head(d) in _AMB for d in s.decorator_list)
+
+
 def is_overload_def(s):
     return any(deco_text(d) in ("overload", "typing.overload", "typing_extensions.overload") for d in s.decorator_list)
 
@@ -1067,8 +1171,8 @@ def supported_bindings(body, class_level=False, path="m", mname="m", is_init=Fal
     for s, direct, cond in level_statements(body):
         if isinstance(s, (ast.FunctionDef, ast.AsyncFunctionDef)):
             add(s.name, kind="function", lineno=s.lineno, direct=direct, cond=False, overload=is_overload_def(s), accessor=is_accessor_def(s),
-                prop=any(deco_text(d) in PROPERTY_DECOS for d in s.decorator_list))
-            if class_level and s.name == "__init__" and not any(deco_text(d) in PROPERTY_DECOS for d in s.decorator_list):
+                prop=any(deco_text(d) in PROPERTY_DECOS for d in s.decorator_list), amb=amb_def(s))
+            if class_level and s.name == "__init__" and (amb_def(s) or not any(deco_text(d) in PROPERTY_DECOS for d in s.decorator_list)):
                 for t, _d, c in level_statements(s.body):
                     targets = t.targets if isinstance(t, ast.Assign) else [t.target] if isinstance(t, ast.AnnAssign) else []
                     if any(not isinstance(x, (ast.Name, ast.Attribute)) for x in targets):
@@ -1076,9 +1180,9 @@ def supported_bindings(body, class_level=False, path="m", mname="m", is_init=Fal
                     for x in targets:
                         if isinstance(x, ast.Attribute) and isinstance(x.value, ast.Name) and x.value.id == "self":
                             add(x.attr, kind="attribute", lineno=t.lineno, direct=False, cond=c, overload=False, accessor=False, instance=True,
-                                chained=len(targets) > 1)
+                                chained=len(targets) > 1, amb=amb_def(s))
         elif isinstance(s, ast.ClassDef):
-            add(s.name, kind="class", lineno=s.lineno, direct=direct, cond=False, overload=False, accessor=False)
+            add(s.name, kind="class", lineno=s.lineno, direct=direct, cond=False, overload=False, accessor=False, amb=amb_def(s))
         elif isinstance(s, (ast.Assign, ast.AnnAssign)):
             targets = s.targets if isinstance(s, ast.Assign) else [s.target]
             simple = all(isinstance(x, (ast.Name, ast.Attribute)) and (isinstance(x, ast.Name) or Abstraction("m", False).dotted(x)) for x in targets)
@@ -1142,9 +1246,9 @@ def guard_map(tree):
             for d in getattr(s, "decorator_list", []):
                 out[d.lineno] = guarded
             if isinstance(s, ast.If):
-                tc = isinstance(parent, (ast.Module, ast.ClassDef)) and ast.unparse(s.test) in TC_TESTS
-                rec(s.body, s, guarded or tc)
-                rec(s.orelse, s, guarded)
+                level = isinstance(parent, (ast.Module, ast.ClassDef))
+                rec(s.body, s, guarded or (level and tc_code(s.test) == 1))
+                rec(s.orelse, s, guarded or (level and tc_code(s.test) == 2))
             elif isinstance(s, (ast.Try, getattr(ast, "TryStar", ast.Try))):
                 rec(s.body, s, guarded)
                 for h in s.handlers:
@@ -1242,8 +1346,8 @@ def expected_deco_labels(node, import_map):
     out = set()
     for d in node.decorator_list:
         r = ab.deco(d)
-        if r[0] == "path":
-            out |= _TABLES.get(r[1], set())
+        if r[0] == "ref":          # an unambiguous spelling: bound at most once, by a module-level import or not at all
+            out |= _TABLES.get(import_map.get(r[1], r[1]) + r[2], set())
     return out
 
 
@@ -1267,6 +1371,8 @@ def direct_checks(case, tree, mod, rec):
     src = case["source"]
     lines = src.splitlines()
     fails = []
+    global _AMB
+    _AMB = ambiguous_heads(tree)
     idx = node_index(tree)
     gmap = guard_map(tree)
     deco_owner = {}
@@ -1341,7 +1447,9 @@ def direct_checks(case, tree, mod, rec):
             fails.append(("type-guard", f"{where}: runtime={obj.runtime} but source position guarded={gmap.get(node.lineno)}", None))
         # ---- decorator-derived labels, alias targets
         imap = getattr(tree, "_c01_import_map", {})
-        if not obj.is_alias and obj.kind.value == "function" and isinstance(node, (ast.FunctionDef, ast.AsyncFunctionDef)):
+        if isinstance(node, (ast.FunctionDef, ast.AsyncFunctionDef, ast.ClassDef)) and amb_def(node):
+            pass        # the spelling of a decorator means different things in this module: model tie + runtime checks decide
+        elif not obj.is_alias and obj.kind.value == "function" and isinstance(node, (ast.FunctionDef, ast.AsyncFunctionDef)):
             exp = expected_deco_labels(node, imap) | ({"async"} if isinstance(node, ast.AsyncFunctionDef) else set())
             if set(obj.labels) != exp:
                 fails.append(("labels", f"{where}: labels {sorted(obj.labels)} but the decorators give {sorted(exp)}", None))
@@ -1431,6 +1539,8 @@ def direct_checks(case, tree, mod, rec):
             if name not in sup and not name.endswith("/*"):
                 fails.append(("names-extra", f"{where}: member {name!r} is bound by no supported statement of this level", None))
         for name, bs in sup.items():
+            if any(b.get("amb") for b in bs):
+                continue        # property / overload status not readable off the text here
             if name not in obj.members:
                 if all(b["overload"] and not b.get("prop") for b in bs):
                     fails.append(("names-missing", f"{where}: {name!r} bound only by @overload definitions has no member", "C01-F6"))
@@ -1576,10 +1686,41 @@ AUTO_CLASS = {"__module__", "__qualname__", "__doc__", "__dict__", "__weakref__"
               "__abstractmethods__", "_abc_impl"}
 
 
+RUNTIME_LABELS = {"property", "cached", "staticmethod", "classmethod", "abstractmethod"}
+
+
+def runtime_labels(v):
+    """The decorator-derived labels an executed definition shows: what CPython really built there."""
+    import functools
+    out = set()
+    for _ in range(8):           # peel the wrappers one by one
+        if getattr(v, "__isabstractmethod__", False):
+            out.add("abstractmethod")
+        if isinstance(v, (staticmethod, classmethod)):
+            out.add(type(v).__name__)
+            v = v.__func__
+        elif isinstance(v, property):
+            out.add("property")
+            v = v.fget
+        elif isinstance(v, functools.cached_property):
+            out |= {"cached", "property"}
+            v = v.func
+        elif hasattr(v, "cache_info") and hasattr(v, "__wrapped__"):
+            out.add("cached")
+            v = v.__wrapped__
+        else:
+            break
+    return out
+
+
 def runtime_checks(case, tree, mod):
     """Names really bound by executing the module (CPython as authority) are members; exports equal the real __all__."""
+    import functools
     import types
     fails = []
+    global _AMB
+    _AMB = ambiguous_heads(tree)
+    straight = rebindings_straight(tree, _AMB)
     if "_ns" not in case:
         case["_ns"] = exec_module(case["source"])
     ns = case["_ns"]
@@ -1600,10 +1741,24 @@ def runtime_checks(case, tree, mod):
                     kind = "alias" if m.is_alias else m.kind.value
                     if kind == "alias":
                         continue
-                    if isinstance(v, type) != (kind == "class") and not isinstance(v, types.GenericAlias):
+                    # (a class decorator whose spelling is rebound in this module may return anything)
+                    if isinstance(v, type) != (kind == "class") and not isinstance(v, types.GenericAlias) and \
+                            all(b["kind"] in ("class", "function") for b in bs) and not any(b.get("amb") for b in bs if b["kind"] == "class"):
                         fails.append(("runtime-kind", f"{where}: {name!r} is {kind} but the executed module binds {type(v).__name__}", None))
-                    if isinstance(v, types.FunctionType) and kind not in ("function",):
+                    # an assignment may hold any value; and where a decorator spelling is rebound inside a block that may not
+                    # run (Griffe visits every branch, by design), the executed module is no authority for that definition
+                    from_def = all(b["kind"] == "function" and not (b.get("amb") and not straight) for b in bs)
+                    if from_def and isinstance(v, types.FunctionType) and kind not in ("function",):
                         fails.append(("runtime-kind", f"{where}: {name!r} is {kind} but the executed module binds a plain function", None))
+                    if from_def and isinstance(v, (property, functools.cached_property)) and kind != "attribute":
+                        fails.append(("runtime-kind", f"{where}: {name!r} is {kind} but the executed module binds a {type(v).__name__}", None))
+                    # decorator-derived labels vs what CPython really built (a name defined exactly once: no forwarding)
+                    if len(bs) == 1 and bs[0]["kind"] == "function" and from_def:
+                        got, exp = set(m.labels) & RUNTIME_LABELS, runtime_labels(v)
+                        if got != exp:
+                            fails.append(("runtime-labels", f"{where}: {name!r} has labels {sorted(got)} but the executed definition is "
+                                                            f"{type(v).__name__} showing {sorted(exp)}", None))
+                        case["_rt_labels"] = case.get("_rt_labels", 0) + 1
                 continue
             if name not in sup:
                 continue          # bound by a form Griffe does not support (loop target, with-as, tuple target, star import...)
@@ -1989,7 +2144,7 @@ class LayoutBuilder:
             return ["def", gap, decos, header, s.name, isinstance(s, ast.AsyncFunctionDef), body], pos
         if isinstance(s, ast.If):
             header, body, pos = self.block(s.lineno, s.body)
-            tc = ast.unparse(s.test) in TC_TESTS
+            tc = tc_code(s.test)
             if not s.orelse:
                 return ["if", gap, header, tc, body, [], [], []], pos
             o = s.orelse[0]
@@ -2315,6 +2470,98 @@ def history_stream(ctx):
 
 
 # =====================================================================================================================
+# extension containers with a history (Model/C01_ext.v): registrations and visits interleaved on ONE Extensions object
+# =====================================================================================================================
+class _Seg:
+    def __init__(self, calls):
+        self.calls = calls
+
+
+def run_ext_history(scratch, initial, ops):
+    """ops: ["add", id] | ["visit", case].  Returns per visit (module, {id: calls of that recorder during the visit},
+    registered ids at that moment, shared (id, hook) log of the visit)."""
+    import griffe
+    shared = []
+    recs = {}
+
+    def rec(i):
+        r = Recorder.make()
+        r.ext_id, r.shared = i, shared
+        recs[i] = r
+        return r
+    container = griffe.Extensions(*[rec(i) for i in initial])
+    registered = list(initial)
+    out = []
+    for op in ops:
+        if op[0] == "add":
+            container.add(rec(op[1]))
+            registered.append(op[1])
+            continue
+        c = op[1]
+        marks = {i: len(r.calls) for i, r in recs.items()}
+        smark = len(shared)
+        fp = filepath_for(scratch, c)
+        lc = griffe.LinesCollection()
+        lc[fp] = c["source"].splitlines()
+        HISTORY.append(_entry(c))
+        mod = griffe.visit(c["mname"], filepath=fp, code=c["source"], extensions=container, lines_collection=lc)
+        out.append((mod, {i: r.calls[marks.get(i, 0):] for i, r in recs.items()}, list(registered), shared[smark:]))
+    return out
+
+
+def ext_history_stream(ctx):
+    """Histories on one container: every visit must be announced completely, in order and once to every extension
+    registered so far -- also to those added after the container has already served visits -- and in registration order."""
+    nh = ctx.budget(30, 300)
+    hists = []
+    for i in range(nh):
+        ids = itertools.count()
+        initial = [next(ids) for _ in range(ctx.rng.choice([0, 1, 1, 2]))]
+        ops = []
+        for j in range(ctx.rng.randint(2, 4)):
+            if j > 0 or ctx.rng.random() < 0.3:
+                for _ in range(ctx.rng.choice([0, 1, 1, 2])):
+                    ops.append(["add", next(ids)])
+            ops.append(["visit", gen_case(ctx.rng, i, profile="history")])
+        hists.append((initial, ops))
+    wire = [["ext-history", initial, [op if op[0] == "add" else ["visit", op[1]["mname"], raw_module(op[1]["source"], op[1]["mname"], op[1]["is_init"])[0]]
+                                     for op in ops]] for initial, ops in hists]
+    models = ctx.model(wire)
+    for (initial, ops), mres in zip(hists, models):
+        case = {"ext_history": {"initial": initial, "ops": [op if op[0] == "add" else ["visit", op[1]["source"], op[1]["is_init"]] for op in ops]}}
+        ctx.case(case, True)
+        ctx.observe("stream", "ext-history")
+        ctx.observe("ext_history_shape", "".join("a" if op[0] == "add" else "V" for op in ops) + f"/{len(initial)}")
+        try:
+            res = run_ext_history(ctx.scratch, initial, ops)
+        except Exception as e:  # noqa: BLE001
+            ctx.property_failure(case, f"visit with a shared extension container raised {type(e).__name__}: {e}")
+            continue
+        if not isinstance(mres, list) or len(mres) != len(res):
+            ctx.tie_failure("harness", "ext-history: model result malformed", mres, case)
+            continue
+        for k, ((mod, segs, registered, shared), mvisit) in enumerate(zip(res, mres)):
+            mexp = {e: evs for e, evs in mvisit}
+            for i, calls in segs.items():
+                evs, perr = impl_events(calls)
+                if i in registered:
+                    ctx.count("ext_visits_received")
+                    if len(registered) > len(initial) and i not in initial and k > 0:
+                        ctx.observe("branch", "extension-added-after-first-visit")
+                    for name, detail, _f in event_checks(mod, _Seg(calls)):
+                        ctx.property_failure(case, f"visit {k + 1}, extension {i} (registered {'initially' if i in initial else 'by add()'}): {name}: {detail}")
+                    d = first_diff(mexp.get(i), json.loads(json.dumps(evs)))
+                    if d or perr:
+                        ctx.tie_failure("correspondence", "events received by a registered extension: model (Model/C01_ext.v) vs implementation", d or perr[:2], case)
+                elif calls:
+                    ctx.property_failure(case, f"visit {k + 1}: extension {i}, not registered yet, received {len(calls)} hook calls")
+            if registered:
+                first = [h for (i, h) in shared if i == registered[0]]
+                if shared != [(i, h) for h in first for i in registered]:
+                    ctx.property_failure(case, f"visit {k + 1}: hooks are not delivered to the registered extensions {registered} in registration order, one event at a time")
+
+
+# =====================================================================================================================
 # explore
 # =====================================================================================================================
 def nontrivial_case(case):
@@ -2330,8 +2577,10 @@ def flush_pending(ctx, c, small, expected, hidx, pending, label):
         return False
     note = " (seen in-process; not re-evaluated in a fresh interpreter)"
     confirmed = False
-    if getattr(ctx, "c01_triaged", 0) < 3:
-        ctx.c01_triaged = getattr(ctx, "c01_triaged", 0) + 1
+    # separate budgets: a failure of the property itself is always worth a fresh interpreter; model mismatches only twice
+    counter = "c01_triaged" if any(kind == "prop" for kind, _a, _b in pending) else "c01_triaged_ties"
+    if getattr(ctx, counter, 0) < (3 if counter == "c01_triaged" else 2):
+        setattr(ctx, counter, getattr(ctx, counter, 0) + 1)
         step = dict(_entry(c), executable=c.get("executable", False), expected=expected)
         verdict, minimal, res = history_triage(ctx, step, HISTORY[:hidx])
         ctx.observe("history_verdict", verdict)
@@ -2623,7 +2872,8 @@ def explore(ctx):
     if corpus:
         check_structural(ctx, corpus, "corpus")
     synthetic_visibility(ctx)
-    if not getattr(ctx, "c01_tainted", False):
+    ext_history_stream(ctx)
+    if not getattr(ctx, "c01_tainted", False) and not ctx.prop_failures:
         history_stream(ctx)
     n = ctx.budget(700, 9000)
     batch = 350
@@ -2689,6 +2939,22 @@ def search(ctx):
 
 def replay(ctx, data):
     case = data.get("failing_input") or {}
+    if case.get("ext_history"):
+        h = case["ext_history"]
+        ops = [op if op[0] == "add" else ["visit", {"source": op[1], "mname": "m", "is_init": bool(op[2])}] for op in h["ops"]]
+        ctx.scratch.mkdir(parents=True, exist_ok=True)
+        print("detail:", data.get("detail"))
+        print("initial extensions:", h["initial"])
+        k = 0
+        res = iter(run_ext_history(ctx.scratch, h["initial"], ops))
+        for op in ops:
+            if op[0] == "add":
+                print("add extension", op[1])
+            else:
+                k += 1
+                mod, segs, registered, _sh = next(res)
+                print(f"visit {k} ({len(op[1]['source'].splitlines())} lines): registered {registered}; hook calls received:", {i: len(c) for i, c in segs.items()})
+        return 0
     src = case.get("source")
     if not src:
         print("replay names no input:", data.get("no_longer_checks"))
